@@ -232,8 +232,21 @@ static bool set_insert(uint64_t *tab, uint64_t mask, uint64_t v, uint64_t *count
     return true;
 }
 
+static uint64_t g_find_fp;
+static int g_find_done;
+
 void vx_state(uint64_t fp)
 {
+    if (g_find_fp && fp == g_find_fp && !g_find_done && g_cur) {
+        g_find_done = 1;
+        char buf[4096];
+        int n = snprintf(buf, sizeof buf, "FOUND-FP %016llx pos=%d choices=", (unsigned long long)fp, g_pos);
+        for (int i = 0; i < g_pos && n < 4000; i++) {
+            n += snprintf(buf + n, sizeof buf - (size_t)n, "%s%d", i ? "," : "", g_cur->choice[i]);
+        }
+        buf[n++] = '\n';
+        if (write(1, buf, (size_t)n)) { }
+    }
     if (S->nstates < (g_states_mask >> 1) + (g_states_mask >> 2)) {
         set_insert(g_states, g_states_mask, fp, &S->nstates);
     }
@@ -919,6 +932,9 @@ int vx_main(int argc, char **argv, const struct vx_harness *h)
         else if (!strcmp(a, "--opt")) { if (o_nkv < 64) o_kv[o_nkv++] = argv[i + 1]; i++; }
         else { fatal("unknown argument %s", a); }
     }
+    if (getenv("VX_FIND_FP")) {
+        g_find_fp = strtoull(getenv("VX_FIND_FP"), NULL, 16);
+    }
     if (o_workers < 1) o_workers = 1;
     if (o_workers > VX_MAXW) o_workers = VX_MAXW;
 
@@ -1090,6 +1106,17 @@ int vx_main(int argc, char **argv, const struct vx_harness *h)
         }
     }
 
+    if (getenv("VX_DUMP_STATES")) {
+        FILE *df = fopen(getenv("VX_DUMP_STATES"), "w");
+        for (uint64_t i = 0; df && i <= g_states_mask; i++) {
+            if (g_states[i]) {
+                fprintf(df, "%016llx\n", (unsigned long long)g_states[i]);
+            }
+        }
+        if (df) {
+            fclose(df);
+        }
+    }
     const double wall = (double)(now_ns() - t0) / 1e9;
     FILE *fp = o_out ? fopen(o_out, "w") : stdout;
     if (!fp) {
